@@ -5,7 +5,7 @@ package vm
 // Contracts for the virtual machine.
 
 //@ func (*VirtualMachine).Clone
-//@ props C05 C12 C09
+//@ props C05 C12 C09 C03
 //@ commute 1
 //@ commute 2
 //@ requires vm != nil
@@ -13,8 +13,16 @@ package vm
 //@ ensures[C12.clone.os] err == nil ==> result0 != nil && result0.os == old(vm.os)
 
 //@ func (*VirtualMachine).applyOptions
-//@ props C05
+//@ props C05 C03
 //@ commute 1
+// C03 (lock balance, see contracts_locks_verif.go). Assumed of the option functions: they leave runMutex alone (they are
+// called with it held).
+//@ requires vm != nil && vm.modules != nil
+//@ requires[C03.unlocked] !ghost("lock.w", bool, &vm.runMutex)
+//@ dynensures[opt.lock] Option: ghost("lock.w", bool, &vm.runMutex)
+//@ invariant 1: ghost("lock.w", bool, &vm.runMutex)
+//@ invariant 2: ghost("lock.w", bool, &vm.runMutex)
+//@ ensures[C03.lock.released] !ghost("lock.w", bool, &vm.runMutex)
 
 // Dispositions of the map-range loops of package vm: Clone#1 Clone#2 applyOptions#1 commute-proved;
 // WithGlobals$1#1 copies entries key by key (closure, not under contract); newVM / basicBuiltins are test helpers
@@ -123,7 +131,7 @@ package vm
 // branch returns before anything else); a freshly evaluated module is cached under its name, so every later
 // importer gets the same module object.
 //@ func (*VirtualMachine).importModule
-//@ props C12 C09 C14 C11 C07
+//@ props C12 C09 C14 C11 C07 C03
 //@ assume[vm.frame.bounds] 0 <= vm.fp && vm.fp < 1023 && -1 <= vm.sp && vm.sp < 1023
 //@ ensures[C14.cache.hit] old(haskey(vm.modules, name)) ==> err == nil && result0 == old(vm.modules[name]) && vm.fp == old(vm.fp) && vm.sp == old(vm.sp) && vm.ip == old(vm.ip)
 //@ ensures[C07.import.unwind] vm.fp == old(vm.fp) && vm.ip == old(vm.ip)
@@ -223,7 +231,7 @@ package vm
 // The context watcher started by start() (a function literal) sets halt only while holding runMutex and only if
 // the run it was started for is still the one in progress (KF-35 fixed).
 //@ func start$1
-//@ props C07
+//@ props C07 C03
 //@ modcomps H_vm_VirtualMachine_halt
 //@ assumeframe
 //@ requires forallA(m, *int, !ghost("lock.w", bool, m))
@@ -232,7 +240,7 @@ package vm
 // start: every successful start is a new run (startCount grows by one - the number the watcher compares with),
 // marks the VM running and clears halt before the watcher exists.
 //@ func (*VirtualMachine).start
-//@ props C07
+//@ props C07 C03
 //@ requires vm != nil && ctx != nil
 //@ requires !ghost("lock.w", bool, &vm.runMutex)
 //@ storeguard[C07.start.halt] VirtualMachine.halt: value == 0
@@ -253,6 +261,20 @@ package vm
 // C11: the import cache is empty at the start of every run: a module that an earlier run's configuration allowed is
 // not handed to a later run whose configuration removed it (seed C11d kept the builtin modules in the cache).
 //@ ensures[C11.reset.modules] fresh(vm.modules) && forallA(k, string, !haskey(vm.modules, k))
+// The tables a VM carries from one invocation into the next - the module table, the loaded code, the globals - are
+// written by construction (createVM, Clone), by the options of an invocation (applyOptions and the With... options), by
+// the import / load of the running code itself and by resetForNewCode, and by nothing else: in particular not by the
+// paths that end an invocation (the recover blocks of Run / RunCode / Call, stop, the unwinding in callFunction). What
+// an invocation leaves in them does not depend on HOW it ended. (Seed C07f emptied the module table in the recover
+// block: a later Call re-ran module bodies or failed to import a module given as a global.)
+//@ scan[C07.modules.writers] C07 fieldwriters VirtualMachine.modules: createVM Clone applyOptions importModule resetForNewCode
+//@ scan[C07.loadedcode.writers] C07 fieldwriters VirtualMachine.loadedCode: createVM Clone loadCode resetForNewCode
+//@ scan[C07.globals.writers] C07 fieldwriters VirtualMachine.globals: createVM Clone applyOptions
+//@ scan[C07.inputglobals.writers] C07 fieldwriters VirtualMachine.inputGlobals: createVM Clone WithGlobals
+//@ scan[C07.importer.writers] C07 fieldwriters VirtualMachine.importer: Clone WithImporter
+//@ scan[C07.main.writers] C07 fieldwriters VirtualMachine.main: Clone New Run
+// Inventory of the VM's fields: a new one needs a disposition (which invocations may write it).
+//@ scan[C07.vm.fields] C07 structfields VirtualMachine: ip sp fp halt startCount activeFrame activeCode main importer os modules inputGlobals globals loadedCode running concAllowed runMutex cloneMutex tmp stack frames
 //@ scan[C07.halt.writers] C07 fieldwriters VirtualMachine.halt: start resetForNewCode
 //@ scan[C07.running.writers] C07 fieldwriters VirtualMachine.running: start stop Clone
 //@ scan[C07.startcount.writers] C07 fieldwriters VirtualMachine.startCount: start
